@@ -108,5 +108,32 @@ example : readMesh toyCodingA defaultReader (refEncode toyCodingA exTexA)
       · exact (locatedNamedAB_sound (specProps exTexA) _ _ (by decide)).loc
       · exact (locatedNamedAB_sound (specProps exTexA) _ _ (by decide)).loc)
 
+/-- … and it LOADS -/
+example : ∃ m, readMesh toyCodingA defaultReader (refEncode toyCodingA exTexA) = .ok m :=
+  ⟨_, ply_reads_spec_mesh_tex_ascii_loads toyCodingA toyLaw toyIntLaw exTexA exTex.exTexFaces (.uchar, .double)
+    ⟨by decide, by intro i hi; simp [exTexA, exMeshA, exMesh, exFile] at hi, by decide,
+      by intro fe h; simp only [exTexA, Option.some.injEq] at h; subst h; decide⟩
+    rfl (by decide) rfl rfl exTex_ok.enc
+    (by
+      intro fc hfc
+      simp only [exTex.exTexFaces, List.mem_cons, List.not_mem_nil, or_false] at hfc
+      rcases hfc with rfl | rfl
+      · exact Or.inl rfl
+      · exact Or.inr rfl)
+    (by decide) (by decide)
+    (by
+      intro r hr d hd
+      simp only [exTexA, exMeshA, List.mem_cons, List.not_mem_nil, or_false] at hr
+      rcases hr with rfl | rfl | rfl | rfl <;>
+        (simp only [List.mem_cons, List.not_mem_nil, or_false] at hd
+         rcases hd with rfl | rfl | rfl | rfl <;> trivial))
+    exBlA (by decide)
+    (by
+      intro p hp
+      simp only [exBlA, List.mem_cons, List.not_mem_nil, or_false] at hp
+      rcases hp with rfl | rfl
+      · exact (locatedNamedAB_sound (specProps exTexA) _ _ (by decide)).loc
+      · exact (locatedNamedAB_sound (specProps exTexA) _ _ (by decide)).loc)⟩
+
 end C08
 end PolyVerif
